@@ -58,3 +58,18 @@ Theorem c10_superseded_chained : forall s, reachable s -> forall v x,
   vers s !! v = Some x -> v_super x = true -> exists w, v_chain x = Some w /\ is_Some (vers s !! w).
 Proof. exact ProtoProofs.superseded_chained. Qed.
 Print Assumptions c10_superseded_chained.
+
+(* ---------------------------------------------------------------------------------------------- *)
+(* REGENERATED FROM THE SOURCE ON EVERY RUN (tools/gen -> Generated.g_code; Decisions.v): the decisions the model
+   takes at these points are the evaluations of the conditions the Go source has there, for all values of their
+   variables. *)
+From GK Require Import GExpr Generated Decisions.
+From Coq Require Import String.
+
+(* rootCAS chains the new version behind the previous one iff the previous one has more than two references
+   (Proto.v: chained := bool_decide (2 < v_refs x)) *)
+Theorem c10_chain_rule_is_source :
+  exists c, decisions "Collection.rootCAS" "prev.refs" = [c] /\
+    forall refs : Z, gtrue (upd (upd env0 "prev" 1%Z) "prev.refs" refs) c = Some (Z.ltb 2 refs).
+Proof. exact Decisions.rootcas_chain_decision. Qed.
+Print Assumptions c10_chain_rule_is_source.
